@@ -2,6 +2,8 @@ import MidnightZK.Model.Common
 import MidnightZK.Model.C08.PublicInput
 import MidnightZK.Model.C08.Expose
 import MidnightZK.Model.C08.Verify
+import MidnightZK.Model.C08.Handles
+import MidnightZK.Model.C08.Names
 /-! Line-protocol handler of property C08. -/
 namespace MidnightZK.C08.Driver
 open MidnightZK MidnightZK.C08
@@ -141,6 +143,67 @@ def answerVfy (coop : Bool) (honest v : List Nat) (steps : List (Path × Val)) :
     s!"nb={vk.nbPublicInputs} fmt={fmtBool (plain == honest)} coop={if coop then tri v else "-"} honest={tri honest}"
   | _, _, _ => "panic"
 
+/-- Answer for given copy constraints on the two columns against given encodings, edits at
+`positions` (indices into plain ++ committed). -/
+def answerBinds (positions : List Nat) (binds comBinds : List (Nat × Nat)) (plain com : List Nat) : String :=
+  let sat := holdsB binds plain && holdsB comBinds com
+  let pp := positions.filter (· < plain.length)
+  let pc := (positions.filter (fun i => plain.length ≤ i ∧ i < plain.length + com.length)).map (· - plain.length)
+  let rej := rejectedEditsAt q binds plain pp + rejectedEditsAt q comBinds com pc
+  s!"plain={fmtBinds binds} com={fmtBinds comBinds} sat={fmtBool sat} rej={rej}/{positions.length}"
+
+def parseHandle (s : String) : Option Handle :=
+  if s = "chip" then some .chip else if s = "gadget" then some .gadget else if s = "g2" then some .g2
+  else if s = "eccsc" then some .eccsc else if s = "ecc" then some .ecc else if s = "ff" then some .ff
+  else if s = "ver" then some .ver else none
+
+/-- `L|R`. -/
+def parseMsmPair (s : String) : Option (Msm × Msm) :=
+  match s.splitOn "|" with
+  | [l, r] => do let l ← parseMsm l; let r ← parseMsm r; pure (l, r)
+  | _ => none
+
+/-- `<handle>.<path>:<tag>=<value>` or `<handle>.acc=<L>|<R>` / `<handle>.accc=<L>|<R>`. -/
+def parseHStep (tok : String) : Option (Handle × HItem) :=
+  match tok.splitOn "." with
+  | [h, rest] => do
+    let h ← parseHandle h
+    if rest.startsWith "accc=" then
+      let lr ← parseMsmPair (rest.drop 5).toString
+      pure (h, .acc true lr.1 lr.2)
+    else if rest.startsWith "acc=" then
+      let lr ← parseMsmPair (rest.drop 4).toString
+      pure (h, .acc false lr.1 lr.2)
+    else
+      let pv ← parseStep rest
+      pure (h, .val pv.1 pv.2)
+  | _ => none
+
+/-- `hexpose <positions> <steps…>`: the circuit of `harness/c08/src/handles.rs`, every step
+through its own handle on the native chip (`exposeVia codeEnv`: the handle environment derived from the
+current source of `struct NativeChip`). -/
+def answerHExpose (positions : List Nat) (steps : List (Handle × HItem)) : String :=
+  match exposeVia codeEnv {} steps, hencAll (steps.map (·.2)) with
+  | some s, some (plain, com) => answerBinds positions s.binds s.comBinds plain com
+  | _, _ => "panic"
+
+/-- `vfycom <plain> <committed> <steps…>`: real keygen/prove/verify with a committed instance.
+The two vectors are what the harness computed with the real encoders
+(`format_committed_instances`); they must be the model's. -/
+def answerVfyCom (plainGiven comGiven : List Nat) (steps : List (Path × Val)) : String :=
+  match exposeAll {} steps, setupVk steps, formatInstance steps with
+  | some c, some vk, some (pl, cm) =>
+    if pl != plainGiven || cm != comGiven then "encoding-mismatch" else
+    let v (pi : List Nat) (cmt : Option (List Nat)) : String :=
+      (verifyCommittedVerdict vk c.binds c.comBinds pl cm pi cmt).str
+    let honest := some (commitKey cm)
+    let edits := ((List.range cm.length).filter
+      (fun i => v pl (some (commitKey (bump q cm i))) == "rejected")).length
+    let pe := if pl.isEmpty then "n/a" else v (bump q pl (pl.length - 1)) honest
+    let pt := if pl.isEmpty then "n/a" else v (pl.take (pl.length - 1)) honest
+    s!"nb={vk.nbPublicInputs} ncom={c.comOffset} some={v pl honest} none={v pl none} batch={v pl none} edits={edits}/{cm.length} pad0={v pl (some (commitKey (cm ++ [0])))} plain-edit={pe} plain-trunc={pt} plain-longer={v (pl ++ [0]) honest}"
+  | _, _, _ => "panic"
+
 def answer (line : String) : String :=
   match words line with
   | ["mod", name] =>
@@ -174,6 +237,20 @@ def answer (line : String) : String :=
       else if mode = "h" then answerVfy false honest v steps
       else "bad-op"
     | _, _, _ => "bad-op"
+  | "hexpose" :: pos :: ws =>
+    match parseNatList? pos, ws.mapM parseHStep with
+    | some pos, some steps => answerHExpose pos steps
+    | _, _ => "bad-op"
+  | "vfycom" :: plain :: com :: ws =>
+    match parseNatList? plain, parseNatList? com, parseSteps ws with
+    | some plain, some com, some steps => answerVfyCom plain com steps
+    | _, _, _ => "bad-op"
+  | ["names", vk, nf, np] =>
+    match nf.toNat?, np.toNat? with
+    | some nf, some np =>
+      let ns := fixedBaseNames vk nf np
+      s!"{",".intercalate ns} | {",".intercalate (isort strLt ns)} | {",".intercalate ((sortPerm ns).map toString)}"
+    | _, _ => "bad-op"
   | ["bigguard", a, d] =>
     match a.toNat?, d.toNat? with
     | some a, some d =>
